@@ -144,15 +144,13 @@ Proof.
   - cbn. intros H; inversion H; auto.
 Qed.
 
-Lemma udp_oversize_rejected_lemma k fd s pl dst :
-  lookup k fd = Some s -> s_v6 s = v6 (fst dst) ->
+Lemma udp_core_oversize k fd s pl dst :
   ((if is_loop (fst dst) then lo_mtu (cfg k) else mtu (cfg k)) - (if v6 (fst dst) then 40 else 20) - 8 < len pl ->
-     k_udp_send_to k fd pl dst = (k, Err EMsgSize)) /\
+     udp_send_core k fd s pl dst = (k, Err EMsgSize)) /\
   (len pl <= (if is_loop (fst dst) then lo_mtu (cfg k) else mtu (cfg k)) - (if v6 (fst dst) then 40 else 20) - 8 ->
-     snd (k_udp_send_to k fd pl dst) <> Err EMsgSize).
+     snd (udp_send_core k fd s pl dst) <> Err EMsgSize).
 Proof.
-  intros L F. unfold k_udp_send_to. rewrite L, F, Bool.eqb_reflx. cbn [negb].
-  rewrite udp_max_payload_spec. split; intros H.
+  unfold udp_send_core. rewrite udp_max_payload_spec. split; intros H.
   - apply N.ltb_lt in H. rewrite H. reflexivity.
   - apply N.ltb_ge in H. rewrite H.
     destruct (s_bound s) as [b|].
@@ -160,4 +158,20 @@ Proof.
     + pose proof (auto_bind_err k fd false (fst dst)) as HE.
       destruct (auto_bind k fd false (fst dst)) as [k1 [|b|e]]; cbn in *; try discriminate.
       intros HH; inversion HH; subst. destruct (HE _ eq_refl); discriminate.
+Qed.
+
+(* both UDP send syscalls: send_to / try_send_to (k_udp_send_to) and send / try_send of a connected socket (k_udp_send) *)
+Lemma udp_oversize_rejected_lemma k fd s pl dst :
+  lookup k fd = Some s ->
+  let lim := (if is_loop (fst dst) then lo_mtu (cfg k) else mtu (cfg k)) - (if v6 (fst dst) then 40 else 20) - 8 in
+  (s_v6 s = v6 (fst dst) ->
+     (lim < len pl -> k_udp_send_to k fd pl dst = (k, Err EMsgSize)) /\
+     (len pl <= lim -> snd (k_udp_send_to k fd pl dst) <> Err EMsgSize)) /\
+  (s_peer s = Some dst ->
+     (lim < len pl -> k_udp_send k fd pl = (k, Err EMsgSize)) /\
+     (len pl <= lim -> snd (k_udp_send k fd pl) <> Err EMsgSize)).
+Proof.
+  intros L. cbv zeta. split.
+  - intros F. unfold k_udp_send_to. rewrite L, F, Bool.eqb_reflx. cbn [negb]. apply udp_core_oversize.
+  - intros P. unfold k_udp_send. rewrite L, P. apply udp_core_oversize.
 Qed.
